@@ -15,6 +15,7 @@ pub const CHUNK_MARK: &str = "#---chunk";
 pub const MOVED_MARK: &str = "#---moved";
 pub const EXEC_MARK: &str = "#---exec";
 pub const ADOPT_MARK: &str = "#---adopt";
+pub const NOSCHEMA_MARK: &str = "#---noschema";
 
 pub fn prop() -> Prop {
     Prop::new(
@@ -35,15 +36,15 @@ pub fn prop() -> Prop {
          (for executable: colliding operation/fragment names, a spread of a fragment of another chunk, an anonymous \
          operation plus any operation in another chunk); (b) always (an extension moved). Distinct by rendered case.",
     )
-    .random("chunked-schema", check_chunks_schema, |t| if t == Tier::Quick { 30_000 } else { 400_000 }, |t| if t == Tier::Quick { 1200 } else { 1600 })
-    .random("chunked-executable", check_chunks_exec, |t| if t == Tier::Quick { 40_000 } else { 500_000 }, |t| if t == Tier::Quick { 400 } else { 800 })
-    .random("moved-extension", check_moved, |t| if t == Tier::Quick { 30_000 } else { 400_000 }, |t| if t == Tier::Quick { 1200 } else { 1600 })
+    .random("chunked-schema", check_chunks_schema, |t| if t == Tier::Quick { 60_000 } else { 800_000 }, |t| if t == Tier::Quick { 1200 } else { 1600 })
+    .random("chunked-executable", check_chunks_exec, |t| if t == Tier::Quick { 80_000 } else { 1_000_000 }, |t| if t == Tier::Quick { 400 } else { 800 })
+    .random("moved-extension", check_moved, |t| if t == Tier::Quick { 60_000 } else { 800_000 }, |t| if t == Tier::Quick { 1200 } else { 1600 })
     .text(check_text)
     .assumptions(&[
         "chunks are grammatical and non-empty; a shorthand query never directly follows a definition that may be continued by `{` (the concatenation would parse differently); the concatenation is re-parsed by the reference parser and must give the same definition list, otherwise the case is skipped",
         "only extensions that FOLLOW the (first) definition of their name are moved, to positions between their last earlier sibling extension and the definition; built-in type names are never targets",
         "diagnostics are compared as multisets of `diagnostic.error.to_string()` (message without file/line)",
-        "executable documents are built against one fixed valid schema",
+        "executable documents are built against one fixed valid schema, or without a schema",
     ])
 }
 
@@ -92,9 +93,9 @@ fn exec_schema() -> &'static Valid<Schema> {
     S.get_or_init(|| Schema::parse_and_validate(EXEC_SCHEMA, "exec_schema.graphql").expect("fixed schema of C13 is valid"))
 }
 
-fn build_exec(texts: &[String]) -> (ExecutableDocument, Built) {
+fn build_exec(texts: &[String], no_schema: bool) -> (ExecutableDocument, Built) {
     let mut errors = DiagnosticList::new(Default::default());
-    let mut b = ExecutableDocument::builder(Some(exec_schema()), &mut errors);
+    let mut b = ExecutableDocument::builder(if no_schema { None } else { Some(exec_schema()) }, &mut errors);
     for (i, t) in texts.iter().enumerate() {
         b = b.parse(t.clone(), format!("chunk{}.graphql", i + 1));
     }
@@ -488,14 +489,15 @@ fn exec_defs(c: &mut Choices) -> (Vec<Definition>, &'static str) {
 struct Plan {
     k: usize,
     fracs: [u8; 4],
-    adopt: bool,
+    /// type-system: SchemaBuilder::adopt_orphan_extensions; executable: build without a schema
+    alt: bool,
 }
 
 fn plan(c: &mut Choices) -> Plan {
     let k = 1 + c.weighted(&[10, 40, 25, 15, 10]);
     let fracs = [c.byte(), c.byte(), c.byte(), c.byte()];
-    let adopt = c.bool(40);
-    Plan { k, fracs, adopt }
+    let alt = c.bool(40);
+    Plan { k, fracs, alt }
 }
 
 /// Cut `n` definitions into 1-5 consecutive non-empty chunks; returns the chunk sizes.
@@ -654,14 +656,14 @@ fn cross_chunk(defs: &[Definition], sizes: &[usize]) -> (bool, bool) {
 // ------------------------------------------------------------------------------------------------
 // checks
 
-fn render_chunks(chunks: &[String], exec: bool, adopt: bool) -> String {
+fn render_chunks(chunks: &[String], exec: bool, alt: bool) -> String {
     let mut s = String::new();
     if exec {
         s.push_str(EXEC_MARK);
         s.push('\n');
     }
-    if adopt {
-        s.push_str(ADOPT_MARK);
+    if alt {
+        s.push_str(if exec { NOSCHEMA_MARK } else { ADOPT_MARK });
         s.push('\n');
     }
     s.push_str(&chunks.join(&format!("{CHUNK_MARK}\n")));
@@ -671,8 +673,8 @@ fn render_chunks(chunks: &[String], exec: bool, adopt: bool) -> String {
 fn run_chunks(chunks: &[String], exec: bool, adopt: bool, ctx: &mut Ctx) -> Outcome {
     let whole = vec![chunks.join("\n")];
     let fails = if exec {
-        let (da, a) = build_exec(chunks);
-        let (db, b) = build_exec(&whole);
+        let (da, a) = build_exec(chunks, adopt);
+        let (db, b) = build_exec(&whole, adopt);
         compare("C13|chunks|executable", ("chunk by chunk", "concatenation"), &a, &b, da == db, false)
     } else {
         let (sa, a) = build_schema(chunks, adopt);
@@ -685,13 +687,13 @@ fn run_chunks(chunks: &[String], exec: bool, adopt: bool, ctx: &mut Ctx) -> Outc
 
 fn chunk_case(defs: Vec<Definition>, source: &'static str, exec: bool, p: &Plan, ctx: &mut Ctx) -> Outcome {
     let sizes = cut(p, defs.len());
-    let adopt = !exec && p.adopt;
+    let adopt = p.alt;
     let chunks = print_chunks(&defs, &sizes);
     ctx.set_sample(render_chunks(&chunks, exec, adopt));
     ctx.class(format!("chunks:{}", sizes.len()));
     ctx.class(format!("source:{source}"));
     if adopt {
-        ctx.class("adopt-orphan-extensions");
+        ctx.class(if exec { "built-without-schema" } else { "adopt-orphan-extensions" });
     }
     // the concatenation must denote the same definition list (harness self-check)
     match parse_document(&chunks.join("\n")) {
@@ -884,7 +886,8 @@ pub fn legit_move(orig: &Document, moved: &Document) -> Result<(), String> {
 }
 
 /// Replay of hand-written cases. Format: optional first lines `#---exec` (executable documents
-/// against the fixed schema) and `#---adopt` (adopt_orphan_extensions); then either chunks
+/// against the fixed schema; with `#---noschema` built without a schema) and `#---adopt`
+/// (adopt_orphan_extensions); then either chunks
 /// separated by `#---chunk` lines, or an original and a moved schema document separated by a
 /// `#---moved` line.
 pub fn check_text(text: &str, ctx: &mut Ctx) -> Outcome {
@@ -894,7 +897,7 @@ pub fn check_text(text: &str, ctx: &mut Ctx) -> Outcome {
     while let Some(first) = lines.first() {
         if first.trim() == EXEC_MARK {
             exec = true;
-        } else if first.trim() == ADOPT_MARK {
+        } else if first.trim() == ADOPT_MARK || first.trim() == NOSCHEMA_MARK {
             adopt = true;
         } else {
             break;
